@@ -144,6 +144,25 @@ example : (match doAddCss "p{color:red ;;background-color:blue;;}".toList with |
 /-- an out-of-range nth-child argument fails the parse, it does not panic -/
 example : (match parseNthArgs "(99999999999)".toList with | .fail => true | _ => false) = true := by decide +kernel
 
+/-- **a hex escape reads at most six digits**: the scan that finds the end of `\hhhhhh` stops at the sixth digit at the
+    latest, so in `\0000691` the `1` belongs to the name (`i1`), as in CSS -/
+theorem hex_escape_at_most_six_digits : ∀ (i : Inp) (k n : Nat), k ≤ 6 → escEnd k i = some n → k ≤ n ∧ n ≤ 6 := by
+  intro i
+  induction i with
+  | nil => intro k n _ h; simp [escEnd] at h
+  | cons c rest ih =>
+    intro k n hk h
+    simp only [escEnd] at h
+    split at h
+    · rename_i hc
+      simp only [Bool.and_eq_true, decide_eq_true_eq] at hc
+      have := ih (k + 1) n (by omega) h
+      omega
+    · injection h with h; subst h; exact ⟨Nat.le_refl _, hk⟩
+
+/-- non-vacuity: `\0000691` is the escape of U+0069 followed by `1` -/
+example : identEscape "\\0000691".toList = some (['1'], 'i') := by decide
+
 /-! ## whitespace and comments are insignificant wherever the grammar skips whitespace
 
 `WsSeq w`: `w` is a sequence of whitespace characters and complete comments.  Minified, pretty-printed and commented
